@@ -146,4 +146,197 @@ Proof.
   apply lookup_is_doc_choice; auto using dops_good.
 Qed.
 
+(* ---- C18: copy() ---- *)
+Hypothesis H_copy_suffix : copy_drops_suffix C = true.
+Hypothesis H_copy_single : copy_copies_single C = true.
+Hypothesis H_copy_cd : has_eff EClearDirect (copy_final C) = true.
+Hypothesis H_copy_cc : has_eff ECacheClear (copy_final C) = true.
+
+(* no register_*_hook route goes through a side registry *)
+Definition route_plain (r : list (rcond * raction)) : bool :=
+  forallb (fun ca => match snd ca with ARegistry _ => false | _ => true end) r.
+Hypothesis H_plain_un : route_plain (r_un S) = true.
+Hypothesis H_plain_st : route_plain (r_st S) = true.
+Hypothesis H_no_ureg_copy : copy_base_ureg S = false /\ copy_full_ureg S = false.
+(* the first entry a converter is born with is registered under every strategy *)
+Definition first_always (l : list ientry) : bool :=
+  match l with e :: _ => negb (ie_asdict_only e) | [] => false end.
+Hypothesis H_first_un : first_always (base_un S) = true.
+Hypothesis H_first_st : first_always (base_st S) = true.
+
+Definition no_ureg_op (o : op) : bool := match o with ORegUnion _ _ _ => false | _ => true end.
+
+Lemma route_action_plain r isu isn a :
+  route_plain r = true -> route_action r isu isn = Some a -> match a with ARegistry _ => False | _ => True end.
+Proof.
+  induction r as [|[c a'] r IH]; cbn [route_action]; [discriminate|]. intros H E.
+  cbn in H. apply andb_true_iff in H. destruct H as [Ha Hr].
+  assert (Hhere : Some a' = Some a -> match a with ARegistry _ => False | _ => True end).
+  { intros X. inversion X; subst. destruct a; auto. discriminate Ha. }
+  destruct c.
+  - destruct isu; [exact (Hhere E) | exact (IH Hr E)].
+  - destruct isn; [exact (Hhere E) | exact (IH Hr E)].
+  - exact (Hhere E).
+Qed.
+
+Lemma dops_no_ureg d us : forallb no_ureg_op (dops W S d us) = true.
+Proof.
+  induction us as [|u us IH]; [reflexivity|]. cbn [dops flat_map]. rewrite forallb_app. fold (dops W S d us). rewrite IH, andb_true_r.
+  destruct u as [d' t h|d' p h|d' p f ext w|d' t uc]; cbn [dop].
+  - destruct (dir_eqb d d'); [|reflexivity]. unfold hook_reg_op.
+    destruct (route_action _ _ _) as [[| |effs]|] eqn:E; try reflexivity.
+    exfalso. eapply (route_action_plain _ _ _ _ _ E). Unshelve. destruct d; assumption.
+  - destruct (dir_eqb d d'); reflexivity.
+  - destruct (dir_eqb d d'); reflexivity.
+  - destruct uc; destruct (dir_eqb d d'); reflexivity.
+Qed.
+
+Lemma forallb_filter {A} (f g : A -> bool) l : forallb f l = true -> forallb f (filter g l) = true.
+Proof.
+  induction l as [|x l IH]; cbn; [auto|]. intros H. apply andb_true_iff in H. destruct H as [Hx Hl].
+  destruct (g x); cbn; rewrite ?Hx; auto.
+Qed.
+
+(* facts about a freshly built dispatcher *)
+Lemma entry_ops_reg start asdict l : forall ix, forallb is_reg (entry_ops start ix asdict l) = true.
+Proof.
+  induction l as [|e l IH]; intros ix; cbn; [reflexivity|].
+  destruct (ie_asdict_only e && negb asdict); [apply IH|]. cbn. rewrite IH, andb_true_r.
+  unfold entry_op. destruct (ie_ureg e); reflexivity.
+Qed.
+Lemma entry_ops_cls start asdict l : forall ix, cls_regs (entry_ops start ix asdict l) = [].
+Proof.
+  induction l as [|e l IH]; intros ix; cbn; [reflexivity|].
+  destruct (ie_asdict_only e && negb asdict); [apply IH|]. cbn. rewrite IH. unfold entry_op. destruct (ie_ureg e); reflexivity.
+Qed.
+Lemma entry_ops_union start asdict l : forall ix, union_regs (entry_ops start ix asdict l) = [].
+Proof.
+  induction l as [|e l IH]; intros ix; cbn; [reflexivity|].
+  destruct (ie_asdict_only e && negb asdict); [apply IH|]. cbn. rewrite IH. unfold entry_op. destruct (ie_ureg e); reflexivity.
+Qed.
+Lemma cops_reg l : forallb is_reg (map (fun c => ORegCls c (HBase c)) l) = true.
+Proof. induction l; cbn; auto. Qed.
+Lemma cops_union l : union_regs (map (fun c => ORegCls c (HBase c)) l) = [].
+Proof. induction l as [|c l IH]; cbn; [reflexivity|]. rewrite IH. reflexivity. Qed.
+Lemma cops_func l : func_regs (map (fun c => ORegCls c (HBase c)) l) = [].
+Proof. induction l as [|c l IH]; cbn; [reflexivity|]. rewrite IH. reflexivity. Qed.
+
+Lemma cls_regs_app a b : cls_regs (a ++ b) = cls_regs b ++ cls_regs a.
+Proof. induction a as [|o a IH]; cbn; [now rewrite app_nil_r|]. rewrite IH, app_assoc. reflexivity. Qed.
+Lemma func_regs_app a b : func_regs (a ++ b) = func_regs b ++ func_regs a.
+Proof. induction a as [|o a IH]; cbn; [now rewrite app_nil_r|]. rewrite IH, app_assoc. reflexivity. Qed.
+Lemma union_regs_app a b : union_regs (a ++ b) = union_regs b ++ union_regs a.
+Proof. induction a as [|o a IH]; cbn; [now rewrite app_nil_r|]. rewrite IH, app_assoc. reflexivity. Qed.
+
+Lemma entry_ops_first_func start asdict l :
+  first_always l = true -> func_regs (entry_ops start 0 asdict l) <> [].
+Proof.
+  destruct l as [|e l]; cbn; [discriminate|]. intros H. apply negb_true_iff in H. rewrite H. cbn.
+  unfold entry_op. destruct (ie_ureg e); intros X; apply app_eq_nil in X; destruct X as [_ X]; discriminate.
+Qed.
+
+(* the ops build runs for dispatcher d *)
+Definition build_ops (full : bool) (o : optmap) (d : dir) : list op :=
+  let asdict := N.eqb (opt_val o OStrat) 0 in
+  let cops := map (fun c => ORegCls c (HBase c)) in
+  match d with
+  | DUn => (cops (cls_un S) ++ entry_ops 0 0 asdict (base_un S)) ++
+           (if full then entry_ops (length (base_un S)) 0 asdict (conv_un S) else [])
+  | DSt => (entry_ops 0 0 asdict (base_st S) ++ cops (cls_st S)) ++
+           (if full then entry_ops (length (base_st S)) 0 asdict (conv_st S) else [])
+  end.
+
+Definition build_fb (o : optmap) (d : dir) : tag :=
+  match d with DUn => opt_val o OUnstructFallback | DSt => opt_val o OStructFallback end.
+
+Lemma build_cdisp full o d :
+  cdisp (build W C S full o) d = run W C (init_st [] [] (build_fb o d)) (build_ops full o d).
+Proof.
+  destruct d; cbn [cdisp build c_un c_st build_ops build_fb]; destruct full; rewrite ?run_app, ?app_nil_r; reflexivity.
+Qed.
+
+Lemma build_ops_reg full o d : forallb is_reg (build_ops full o d) = true.
+Proof.
+  destruct d; unfold build_ops; rewrite !forallb_app, ?entry_ops_reg, ?cops_reg; destruct full; cbn; rewrite ?entry_ops_reg; reflexivity.
+Qed.
+
+Lemma build_facts full o d :
+  let s := cdisp (build W C S full o) d in
+  ureg s = [] /\ preds s <> [] /\
+  single s = cls_regs (map (fun c => ORegCls c (HBase c)) (match d with DUn => cls_un S | DSt => cls_st S end)) /\
+  fallback s = build_fb o d.
+Proof.
+  cbn. rewrite build_cdisp.
+  destruct (run_reg_core W C H_func_cd H_func_cc H_cls_cc H_front (build_ops full o d) (init_st [] [] (build_fb o d)) (build_ops_reg full o d))
+    as (H1 & H2 & H3 & H4).
+  rewrite H1, H2, H3, H4. cbn [init_st single preds ureg fallback]. rewrite !app_nil_r.
+  split; [|split; [|split; [|reflexivity]]].
+  - destruct d; unfold build_ops; rewrite !union_regs_app, ?entry_ops_union, ?cops_union; destruct full; cbn; rewrite ?entry_ops_union; reflexivity.
+  - destruct d; unfold build_ops; rewrite !func_regs_app, ?cops_func; intros X.
+    + apply app_eq_nil in X. destruct X as [_ X]. apply app_eq_nil in X. destruct X as [X _].
+      exact (entry_ops_first_func 0 _ _ H_first_un X).
+    + apply app_eq_nil in X. destruct X as [_ X]. rewrite app_nil_l in X.
+      exact (entry_ops_first_func 0 _ _ H_first_st X).
+  - destruct d; unfold build_ops; rewrite !cls_regs_app, ?entry_ops_cls; destruct full; cbn; rewrite ?entry_ops_cls, ?app_nil_r; reflexivity.
+Qed.
+
+Lemma urun_skip us : forall c, c_un_skip (urun W C S c us) = c_un_skip c /\ c_st_skip (urun W C S c us) = c_st_skip c /\ c_full (urun W C S c us) = c_full c /\ c_opts (urun W C S c us) = c_opts c.
+Proof.
+  induction us as [|u us IH]; intros c; cbn [urun fold_left]; [repeat split|].
+  fold (urun W C S (ustep W C S c u) us). destruct (IH (ustep W C S c u)) as (A & B & D & E).
+  rewrite A, B, D, E. repeat split.
+Qed.
+
+Definition cskip (c : conv) (d : dir) : nat := match d with DUn => c_un_skip c | DSt => c_st_skip c end.
+
+Lemma copy_cdisp c ov d :
+  cdisp (copy_conv W C S c ov) d =
+  copy_to C (cdisp c d) (cdisp (build W C S (c_full c) (copy_opts (if c_full c then copy_full S else copy_base S) (c_opts c) ov)) d) (cskip c d).
+Proof.
+  destruct H_no_ureg_copy as [A B].
+  destruct d; cbn [cdisp copy_conv c_un c_st cskip]; [reflexivity|].
+  destruct (c_full c); rewrite ?A, ?B; reflexivity.
+Qed.
+
+(* C18: at the moment of copying, the copy answers every lookup exactly like a
+   converter freshly built from the forwarded options that then received the
+   original's registrations *)
+Theorem conv_copy_is_replay full o us ov d t :
+  Forall good_uop us ->
+  conv_lookup W C (copy_conv W C S (urun W C S (build W C S full o) us) ov) d t =
+  conv_lookup W C (urun W C S (build W C S full (copy_opts (if full then copy_full S else copy_base S) o ov)) (filter is_ureg_op us)) d t.
+Proof.
+  intros Hg.
+  set (c := urun W C S (build W C S full o) us).
+  destruct (urun_skip us (build W C S full o)) as (K1 & K2 & K3 & K4). fold c in K1, K2, K3, K4.
+  rewrite !conv_lookup_cdisp, copy_cdisp, urun_disp, K3, K4. cbn [c_full c_opts build].
+  set (o' := copy_opts (if full then copy_full S else copy_base S) o ov).
+  set (s0 := cdisp (build W C S full o) d). set (other := cdisp (build W C S full o') d).
+  assert (Hskip : cskip c d = length (preds s0)).
+  { subst s0. destruct d; cbn [cskip]; rewrite ?K1, ?K2; reflexivity. }
+  rewrite Hskip. subst c. rewrite urun_disp. fold s0.
+  destruct (build_ok full o d) as [HI0 Hc0]. fold s0 in HI0, Hc0.
+  destruct (build_ok full o' d) as [HIo Hco]. fold other in HIo, Hco.
+  destruct (build_facts full o d) as (U0 & P0 & S0 & _). fold s0 in U0, P0, S0.
+  destruct (build_facts full o' d) as (Uo & _ & So & _). fold other in Uo, So.
+  pose proof (dops_good d us Hg) as Hgood.
+  (* the copy only reads the registration content of its source *)
+  rewrite (copy_to_core C _ (run W C s0 (filter is_reg (dops W S d us))) other (length (preds s0))).
+  2:{ apply (run_core W C H_order H_func_cd H_func_cc H_cls_cc); auto using same_core_refl. }
+  rewrite dops_filter.
+  set (h := dops W S d (filter is_ureg_op us)).
+  assert (Hreg : forallb is_reg h = true).
+  { subst h. rewrite <- dops_filter. apply filter_is_reg_all. }
+  assert (Hnu : forallb no_ureg_op h = true) by (subst h; apply dops_no_ureg).
+  destruct (copy_to_is_replay W C H_order H_func_cd H_func_cc H_cls_cc H_front H_copy_suffix H_copy_single H_copy_cd H_copy_cc
+              s0 other h t Hreg Hnu P0 (eq_trans S0 (eq_sym So)) U0 Uo) as (D1 & D2 & D3 & D4).
+  assert (Hgh : Forall good_op h).
+  { subst h. apply dops_good. clear - Hg. induction Hg as [|u us Hu Hr IH]; cbn; [constructor|].
+    destruct (is_ureg_op u); [constructor; assumption | assumption]. }
+  destruct (run_ok W C H_order H_func_cd H_func_cc H_cls_cc h other HIo Hco Hgh) as [HIr Hcr].
+  destruct (dispatch_c_ok W C H_order _ t HIr Hcr) as (E2 & _).
+  rewrite E2, <- D4.
+  apply dispatch_c_ok; [exact H_order | apply inv_cleared; assumption | rewrite D3; exact Hcr].
+Qed.
+
 End Conv.
